@@ -49,6 +49,7 @@ type Obl struct {
 	Heap0   map[string]*Term
 	KnownRegion string
 	Subs        []*Obl // per-return-site parts; the obligation holds iff all parts do
+	FixedArgs   map[string]string // `each` instances: parameter name -> Go expression of the constant
 }
 
 type Exec struct {
@@ -73,6 +74,10 @@ type Exec struct {
 	specDepth   int
 	TopRets     []edgeIn
 	TopRetVals  []Val
+	UseBodyOf   []string
+	Fixed       map[string]Val // unit inputs fixed to constants (clause `each`)
+	UsedLemmas  []string
+	Hidden      map[string]bool
 }
 
 func NewExec(l *Loader, unit string) *Exec {
